@@ -12,6 +12,7 @@ import (
 	"fmt"
 	"io"
 	"math/rand"
+	"regexp"
 	"strconv"
 	"strings"
 
@@ -463,6 +464,19 @@ var lineKinds = []string{
 	"main.f(0x1}})", "main.f({0x1, 0x2}}}, 0x3)", "  ", "created by net/http.", "net/http.(*conn)",
 }
 
+var reLaterHeader = regexp.MustCompile(`(?m)^[ \t]*goroutine \d+ \[[^\n]*\]:`)
+
+// cutAfterLaterHeader cuts a dump of several goroutines right after the header
+// line of one that is not the first, dropping the end of line.
+func cutAfterLaterHeader(r *rand.Rand, d string) string {
+	m := reLaterHeader.FindAllStringIndex(d, -1)
+	if len(m) < 2 {
+		return d
+	}
+	k := 1 + r.Intn(len(m)-1)
+	return d[:m[k][1]]
+}
+
 // ---- the mixes ----
 
 func opScan(r *rand.Rand, n int, tier, mix string) {
@@ -545,7 +559,12 @@ func opScan(r *rand.Rand, n int, tier, mix string) {
 				regions = append(regions, fmt.Sprintf("%d:%d", st, b.Len()))
 				b.WriteString(genJunk(r, 1+r.Intn(5), true, crlf))
 			}
-			if r.Intn(3) == 0 {
+			if r.Intn(8) == 0 {
+				// the stream ends inside a dump, right after the header of a later goroutine, without EOL
+				st := b.Len()
+				b.WriteString(cutAfterLaterHeader(r, printDump(g.dump(2+r.Intn(3), 3), g.variant(), true)))
+				regions = append(regions, fmt.Sprintf("%d:%d", st, b.Len()))
+			} else if r.Intn(3) == 0 {
 				b.WriteString("unterminated tail")
 			}
 			txt := b.String()
